@@ -31,13 +31,18 @@ def queries():
     return q_sel, q_anim, q_chain
 
 
-def mk_result(ob_list, name, words, pc, ax, claim):
+def mk_result(ob_list, name, words, pc, ax, claim, mvars=()):
     ob = Obligation(name, [], [], words=words)
     s = z3.Solver(); s.set('timeout', 30000); s.add(*pc); s.add(*ax); s.add(z3.Not(claim))
     t0 = time.time(); c = s.check()
     class R: pass
     rr = R(); rr.secs = time.time() - t0; rr.solver = 'z3'; rr.detail = ''; rr.model = {}
     rr.status = 'unsat' if c == z3.unsat else ('sat' if c == z3.sat else 'unknown')
+    if c == z3.sat and mvars:
+        mdl = s.model()
+        for v in mvars:
+            val = mdl.eval(v, model_completion=True)
+            rr.model[str(v)] = z3.is_true(val) if z3.is_bool(v) else val.as_long()
     ob.result = rr; ob_list.append(ob)
     return ob
 
@@ -177,9 +182,10 @@ def main(tier):
                     for a_, b_ in mapping.items():
                         nxt = z3.If(exp == a_, z3.BitVecVal(b_, 64), nxt)
                     exp = z3.If(fire, nxt, exp)
-                mk_result(check.obligations, f'C19.chain[key={KEYS[cur_d]},map={mapping},events={nev}].fires-iff-ended-and-mapped',
-                          'the key moves to chain[k] exactly for each Ended event of this entity while k has an entry; no entry / other states / other entities: the key stays',
-                          r.pc, [], nk == exp)
+                ob = mk_result(check.obligations, f'C19.chain[key={KEYS[cur_d]},map={mapping},events={nev}].fires-iff-ended-and-mapped',
+                               'the key moves to chain[k] exactly for each Ended event of this entity while k has an entry; no entry / other states / other entities: the key stays',
+                               r.pc, [], nk == exp, mvars=evst + evme)
+                ob.chain_case = (cur_d, dict(mapping), nev)
 
     # ------------------------------------------------------------------ S3: the literal "some other animator on the entity ended" clause
     # AnimationStateChanged carries (entity, state) only: an Ended event of ANOTHER component type's animator on the same entity is
@@ -265,6 +271,34 @@ def main(tier):
     # that pass through the pre-state of the failing step (previous key, then current key) and continue with every possible next
     # key, judged by the reference of replay_bevy::run_history; plus the fixed selector scenario
     bad = [ob for ob in check.obligations if ob.result.status == 'sat' and not ob.finding_key]
+    # chain-step counterexamples: the solver's own event list is sent through the public Events resource of a real App
+    chain_bad = [ob for ob in bad if hasattr(ob, 'chain_case')]
+    if chain_bad:
+        try:
+            cases = []; exps = []
+            for ob in chain_bad[:12]:
+                cur_d, mapping, nev = ob.chain_case
+                evs = [(0 if ob.result.model.get(f'ev{i}_this_entity') else 1, ob.result.model.get(f'ev{i}_state', 0)) for i in range(nev)]
+                exp = cur_d
+                for who, st_ in evs:
+                    if who == 0 and st_ == 3 and exp in mapping: exp = mapping[exp]
+                cases.append({'kind': 'bevy_chain_step', 'cur': KEYS[cur_d], 'chain': ';'.join(f'{KEYS[a]}>{KEYS[b]}' for a, b in mapping.items()),
+                              'events': ';'.join(f'{w}:{s_}' for w, s_ in evs)})
+                exps.append(KEYS[exp])
+            nats = run_replay(cases, 'dev', 'replay_bevy', timeout=900)
+            check.traces_validated += len(nats)
+            nrep = 0
+            for ob, case, exp, nat in zip(chain_bad, cases, exps, nats):
+                if nat.get('key_after') != exp and nrep < 2:
+                    nrep += 1
+                    check.inconclusive = [x for x in check.inconclusive if not x.startswith(ob.name + ':')]
+                    check.report_violation(ob.name, None, f'chain_animations on a real App: selector key {case["cur"]}, chain {case["chain"] or "(empty)"}, AnimationStateChanged events '
+                                           f'[{case["events"]}] (entity 0 = this entity, 1 = an entity without selector/chain; state 3 = Ended): key after the frame is {nat.get("key_after")}, documented behaviour gives {exp}', case)
+            if nrep:
+                check.inconclusive = [x for x in check.inconclusive if 'no automatic App replay' not in x or '.chain[' not in x]
+                bad = [ob for ob in bad if not hasattr(ob, 'chain_case')]
+        except Exception as e:
+            check.inconclusive.append(f'bevy chain-step replay unavailable ({e})')
     if bad:
         try:
             hist = histories_for(bad)
@@ -288,6 +322,21 @@ def main(tier):
             hist = histories_for([])[:: 7]
             nats = run_replay(hist, 'dev', 'replay_bevy', timeout=900)
             check.traces_validated += len(nats)
+            # the chain-step model against the real App: every event list of length <= 2 over {this, other} x {Playing, Ended}
+            ccases = []; cexp = []
+            for cur_d, mapping in ((1, {1: 2}), (1, {1: 2, 2: 1}), (2, {1: 2}), (1, {})):
+                for nev in (0, 1, 2):
+                    for evs in itertools.product(itertools.product((0, 1), (2, 3)), repeat=nev):
+                        exp = cur_d
+                        for who, st_ in evs:
+                            if who == 0 and st_ == 3 and exp in mapping: exp = mapping[exp]
+                        ccases.append({'kind': 'bevy_chain_step', 'cur': KEYS[cur_d], 'chain': ';'.join(f'{KEYS[a]}>{KEYS[b]}' for a, b in mapping.items()), 'events': ';'.join(f'{w}:{s_}' for w, s_ in evs)})
+                        cexp.append(KEYS[exp])
+            cn = run_replay(ccases, 'dev', 'replay_bevy', timeout=900)
+            check.traces_validated += len(cn)
+            for case, exp, nat in zip(ccases, cexp, cn):
+                if nat.get('key_after') != exp:
+                    check.report_violation('C19.chain-step', None, f'chain step {case} on the real App: key {nat.get("key_after")}, documented {exp}', case); break
             for case, nat in zip(hist, nats):
                 if nat.get('violated'):
                     check.report_violation('C19.history', None, f'history {case["ops"]} chain {case["chain"]!r} on the real App: {nat.get("detail")}', case)
